@@ -308,6 +308,25 @@ pub fn c17(ctx: &Ctx) -> (Report, Meta) {
                 }
             }
         }
+        // byte lengths around 255 with every admissible number of 2-/3-/4-byte characters (exactly 255 bytes with
+        // at most 127 characters must be accepted)
+        for total in 250..=257usize {
+            for wide in ['\u{e9}', '\u{20ac}', '\u{1f600}'] {
+                let w = wide.len_utf8();
+                for j in 0..=total / w {
+                    let k = total - w * j;
+                    if k + j < 100 || k + j > 130 {
+                        continue;
+                    }
+                    let mut t: String = std::iter::repeat(wide).take(j).collect();
+                    t.extend(std::iter::repeat('a').take(k));
+                    texts.push(t);
+                    let mut u: String = std::iter::repeat('a').take(k).collect();
+                    u.extend(std::iter::repeat(wide).take(j));
+                    texts.push(u);
+                }
+            }
+        }
         for s in &texts {
             let m = match catch(|| mk1029(s).unwrap()) {
                 Ok(m) => m,
@@ -360,19 +379,33 @@ pub fn c17(ctx: &Ctx) -> (Report, Meta) {
                 seqs.push(vec![a, b, 0x80, 0x80]);
             }
         }
+        // character counter: the true number of characters when the text is valid UTF-8 (a decoder may
+        // legitimately cross-check it); for invalid text it is only a claim of the sender, so several claims
+        // are tried (0, 1, "as many as bytes", 127)
+        let mut cases: Vec<(&Vec<u8>, u64)> = vec![];
+        for bytes in seqs.iter() {
+            if utf8_valid(bytes) {
+                cases.push((bytes, String::from_utf8_lossy(bytes).chars().count() as u64));
+            } else {
+                let mut claims = vec![1u64, 0, bytes.len() as u64, bytes.len() as u64 - 1, 127];
+                claims.sort();
+                claims.dedup();
+                for c in claims {
+                    cases.push((bytes, c));
+                }
+            }
+        }
         let parts = par_shards(nsh, |sh| {
             let mut rep = Report::new();
-            for (i, bytes) in seqs.iter().enumerate() {
+            for (i, (bytes, nchars)) in cases.iter().enumerate() {
                 if i % nsh != sh {
                     continue;
                 }
+                let (bytes, nchars) = (*bytes, *nchars);
                 // harness-written 1029 frame: 12 number, 12 station, 16 mjd, 17 seconds, 7 chars, 8 bytes, text
                 let mut w = BitW::new();
                 w.put(1029, 12);
                 w.put(0, 12 + 16 + 17);
-                // character counter: the true number of characters when the text is valid UTF-8 (a decoder may
-                // legitimately cross-check it), an arbitrary value otherwise
-                let nchars = if utf8_valid(bytes) { String::from_utf8_lossy(bytes).chars().count() as u64 } else { 1 };
                 if nchars > 127 {
                     continue;
                 }
